@@ -183,6 +183,20 @@ class _Gen:
                     self.twin_budget = 0
                     self.twin_site = f"mod index (x - {shift}) % {c} + 1 into extent {E}"
                     return f"({L.var} - {shift}) % {c} + {m - c + 1}"
+                form = r.random()
+                if form < 0.2:
+                    # a negated (non-negative) iterator as numerator
+                    return f"(-{L.var}) % {c}"
+                if form < 0.35:
+                    return f"({r.choice([1, 2, 5])} - {L.var}) % {c}"
+                if form < 0.55 and L.hi.sym is None:
+                    # floor division with a possibly negative numerator, shifted into range
+                    s_ = r.choice([1, 3, 5])
+                    lo_v = (L.lo - s_) // c
+                    hi_v = (L.hi.c - 1 - s_) // c
+                    if hi_v - lo_v <= m - 1:
+                        off = -lo_v
+                        return f"({L.var} - {s_}) / {c} + {off}" if off >= 0 else f"({L.var} - {s_}) / {c} - {-off}"
                 if shift and L.lo - shift < 0:
                     # negative numerators under % (floor-mod is still in range)
                     return f"({L.var} - {shift}) % {c}"
